@@ -26,7 +26,7 @@ var propDescs = map[string]propDesc{
 		NotDecided: "exactness/order of query results, de-duplication logic, LPM traversal.",
 	},
 	"C05": {
-		Decides:    "root loaded after the table locks; publish merges untouched positions from the root read under the mutex and its length depends on that root; locks are released only after publish+notify and only by Commit/Abort; `locked` is set only on entries whose lock is held; registration appends under the mutex (LOAD-AFTER-LOCK, ROOT-CS, ROOT-MERGE, ROOT-LEN, COMMIT-ORDER, UNLOCK-SITES, WTXN-PRIVATE).",
+		Decides:    "root loaded after the table locks; publish merges untouched positions from the root read under the mutex and its length depends on that root; locks are released only after publish+notify and only by Commit/Abort; `locked` is set only on entries whose lock is held; registration appends under the mutex; what a library function stores into a table entry of its write transaction is not computed from a read snapshot taken before the lock (WTXN-FRESH) (LOAD-AFTER-LOCK, ROOT-CS, ROOT-MERGE, ROOT-LEN, COMMIT-ORDER, UNLOCK-SITES, WTXN-PRIVATE).",
 		NotDecided: "fairness; the Go mutex itself.",
 	},
 	"C06": {
@@ -58,7 +58,7 @@ var propDescs = map[string]propDesc{
 		NotDecided: "which channel a lookup returns; dropped nodes (count only).",
 	},
 	"C13": {
-		Decides:    "persistence half (IMMUT/OWN-CTOR/FREEZE/EPOCH on package lpm and lpmEntry); descent-loop agreement: never descend past, nor return, a node the query diverged from (LPM-DIVERGE); every site that treats a trie node as a stored value tests `imaginary` first (LPM-IMAGINARY); Iterator.All leaves the iterator unmodified (ITER-PURE); Txn.Commit freezes the committed trie; a lookup that ends on a fork node falls back to the covering prefix; prefix-length arithmetic is not carried out in 16 bits (FREEZE, LPM-IMAGINARY, LEN-NARROW); yield results are honoured (YIELD-RETURN).",
+		Decides:    "persistence half (IMMUT/OWN-CTOR/FREEZE/EPOCH on package lpm and lpmEntry); descent-loop agreement: never descend past, nor return, a node the query diverged from (LPM-DIVERGE); every site that treats a trie node as a stored value tests `imaginary` first (LPM-IMAGINARY); Iterator.All leaves the iterator unmodified (ITER-PURE); Txn.Commit freezes the committed trie; a lookup that ends on a fork node falls back to the covering prefix; prefix-length arithmetic is not carried out in 16 bits (FREEZE, LPM-IMAGINARY, LEN-NARROW); yield results are honoured (YIELD-RETURN); LowerBound always includes a node reached with the whole query matched (LOWERBOUND-COVER).",
 		NotDecided: "longest-match / ordering exactness otherwise.",
 	},
 	"C14": {
@@ -70,7 +70,7 @@ var propDescs = map[string]propDesc{
 		NotDecided: "that the guards compare the right values for every interleaving.",
 	},
 	"C16": {
-		Decides:    "the bookkeeping the pacing contract rests on: the backoff duration is capped by the maximum; an object's retry state (attempt counter) is forgotten when a new version arrives or an operation succeeds, so the backoff starts over; every failure refreshes the queued item and re-positions it in both heaps; the retry low watermark is the oldest failed item's revision and 0 only when none remains; WaitUntilReconciled's progress is published from the revisions incremental.run actually processed, and the low watermark is published on every update whatever the round's revision; the revision heap is ordered by origRev; a round cut short by the round size is marked and does not publish the revision it stopped at; validate() relates the backoff bounds; (known finding) the origin revision of a failed update is the observed version's revision, not the change's (RETRY-BOOK, TIMER-REARM, QUEUE-CTOR, QUEUE-INDEX-PAIR).",
+		Decides:    "the bookkeeping the pacing contract rests on: the backoff duration is capped by the maximum; an object's retry state (attempt counter) is forgotten when a new version arrives or an operation succeeds, so the backoff starts over; every failure refreshes the queued item and re-positions it in both heaps; the retry low watermark is the oldest failed item's revision and 0 only when none remains; WaitUntilReconciled's progress is published from the revisions incremental.run actually processed, and the low watermark is published on every update whatever the round's revision; the revision heap is ordered by origRev; a round cut short by the round size is marked and does not publish the revision it stopped at; only Clear and LowWatermark take items out of the by-revision heap; validate() relates the backoff bounds; (known finding) the origin revision of a failed update is the observed version's revision, not the change's (RETRY-BOOK, TIMER-REARM, QUEUE-CTOR, QUEUE-INDEX-PAIR).",
 		NotDecided: "every clause about durations: never sooner than the minimum backoff, waits that do not shrink, retry within maximum plus one round - run-time quantities with no static handle.",
 	},
 	"C17": {
